@@ -1067,6 +1067,55 @@ func (env *Env) evalCall(e *Expr) EV {
 		if pt == "" {
 			efail("resultOf: %s is not a heap-pure deterministic function", e.Args[0].Str)
 		}
+		// the function's proved postconditions hold of this value (under its preconditions)
+		if ct := env.w.cs.Funcs[e.Args[0].Str]; ct != nil && env.facts != nil && env.fuel < 3 && fn.Signature.Results().Len() == 1 {
+			ce := &Env{w: env.w, pkg: env.pkg, vars: map[string]EV{}, st: env.st, alloc0: env.st.alloc, fuel: env.fuel + 3}
+			if fn.Pkg != nil {
+				ce.pkg = fn.Pkg.Pkg
+			}
+			oe := *ce
+			ce.old = &oe
+			names := sigParamNames(fn.Signature)
+			ptypes := sigParamTypes(fn.Signature)
+			okBind := len(names) == len(ats)
+			for i := range names {
+				if !okBind {
+					break
+				}
+				srt, ok := sortOf(ptypes[i])
+				if !ok {
+					okBind = false
+					break
+				}
+				ev := EV{ats[i], srt, ptypes[i]}
+				if names[i] != "" && names[i] != "_" {
+					ce.vars[names[i]] = ev
+				}
+			}
+			if okBind {
+				rt := fn.Signature.Results().At(0).Type()
+				rev := EV{pt, rs, rt}
+				ce.vars["result"] = rev
+				ce.vars["result0"] = rev
+				if n := fn.Signature.Results().At(0).Name(); n != "" && n != "_" {
+					ce.vars[n] = rev
+				}
+				oe.vars = ce.vars
+				func() {
+					defer func() { recover() }()
+					var pre []Term
+					for _, r := range ct.Requires {
+						pre = append(pre, ce.eval(r.Expr).T)
+					}
+					for _, en := range ct.Ensures {
+						t := ce.eval(en.Expr)
+						if t.S == SBool && !strings.Contains(t.T, "q_") || true {
+							*env.facts = append(*env.facts, implies(and(pre...), t.T))
+						}
+					}
+				}()
+			}
+		}
 		return EV{pt, rs, fn.Signature.Results().At(0).Type()}
 	case "asParams":
 		// the []*NameValuePair boxed in an interface value (argument of sort.SliceStable)
@@ -1085,6 +1134,12 @@ func (env *Env) evalCall(e *Expr) EV {
 			efail("typeid expects a string literal")
 		}
 		return EV{strconv.Itoa(env.w.typeID(e.Args[0].Str)), SInt, nil}
+	case "fnid":
+		argn(1)
+		if e.Args[0].Op != "str" {
+			efail("fnid expects a function key string")
+		}
+		return EV{strconv.Itoa(env.w.funcID(e.Args[0].Str)), SInt, nil}
 	case "closureFn":
 		argn(1)
 		x := env.eval(e.Args[0])
